@@ -197,6 +197,49 @@ def run(ctx):
         r5.instance({"consumer": fn.def_, "rewrites_decoded_text_with": [b[0] for b in bad]}, ok)
         if not ok:
             r5.violate("C17|R5|%s" % fn.def_, "%s rewrites decoded field names / values with %s: the fields echoed are no longer the fields submitted" % (fn.def_, [b[0] for b in bad]), fn.file, bad[0][1], fn.def_)
+    # ---- R6: the echo controllers answer with the decoded fields
+    r6 = chk.rule("R6-echo-body-is-the-decoded-fields", "in every controller `process` that decodes a query / form body (get_query, get_uri_query, FormUrlEncoded::parse), the body handed to the response (first argument of Range::get_content_range on the success path) is computed from the decoded map: the endpoint echoes what was submitted", floor=2)
+    for fn0 in F.rws_fns():
+        if fn0.kind == "Promoted" or fn0.def_ in sources or fn0.def_ in thin or not re.search(r"Controller( as controller::Controller>)?::process(_request)?$", fn0.def_):
+            continue
+        fn = ctx.inl(fn0)
+        srcs = {t["dest"]["l"] for _, t in fn.calls() if callee_name(t) in sources}
+        if not srcs:
+            continue
+        ld = local_deps(fn)
+        bodies = [(bid, t["args"][0]["l"]) for bid, t in fn.calls() if (callee_name(t) or "") == "range::Range::get_content_range" and t["args"] and t["args"][0].get("k") in ("copy", "move")]
+        for b_ in fn.blocks:
+            if b_.get("cleanup"):
+                continue
+            for st in b_["stmts"]:
+                if st["k"] == "assign" and st["rv"]["k"] == "aggregate" and (st["rv"].get("adt") or "").endswith("range::ContentRange"):
+                    d_ = dict(zip(st["rv"]["fields"], st["rv"]["ops"]))
+                    if d_.get("body", {}).get("k") in ("copy", "move"):
+                        bodies.append((b_["id"], d_["body"]["l"]))
+        dep = [(bid, l_) for bid, l_ in bodies if ld.closure(l_) & srcs]
+        ok = bool(dep)
+        r6.instance({"controller": fn0.def_, "response_bodies": len(bodies), "bodies_computed_from_the_decoded_fields": len(dep)}, ok)
+        if not ok:
+            r6.violate("C17|R6|%s" % fn0.def_, "%s decodes the submitted fields but no response body is computed from them: the echo endpoint answers without the fields" % fn0.def_, fn0.file, fn0.span["line"], fn0.def_)
+    # ---- R7: the echo endpoints can be reached with the method their form uses
+    r7 = chk.rule("R7-echo-endpoint-admits-its-method", "the matcher of a controller that echoes the query admits GET; the matcher of one that echoes a form body admits POST (finite-domain evaluation over the method, as in C09.R1)", floor=2)
+    from .c09 import can_match
+    for fn0 in F.rws_fns():
+        m = re.search(r"^(<)?(.*Controller)( as controller::Controller>)?::process(_request)?$", fn0.def_)
+        if fn0.kind == "Promoted" or not m or "::form::" not in fn0.def_:
+            continue        # the property names the form echo endpoints
+        used = {callee_name(t) for _, t in ctx.inl(fn0).calls() if callee_name(t) in sources}
+        if not used:
+            continue
+        want = "POST" if "body::form_urlencoded::FormUrlEncoded::parse" in used else "GET"
+        mname = fn0.def_.replace("::process_request", "::is_matching_request").replace("::process", "::is_matching")
+        mf = F.fns.get(mname)
+        if mf is None:
+            continue
+        ok = can_match(mf, want)
+        r7.instance({"controller": fn0.def_, "matcher": mname, "method": want, "can_match": ok}, ok)
+        if not ok:
+            r7.violate("C17|R7|%s|%s" % (mname, want), "%s can never match %s: the echo endpoint it guards does not answer the form that is submitted to it" % (mname, want), mf.file, mf.span["line"], mname)
     chk.assumptions += ["str::replace applies its steps sequentially on the whole text (std contract)", "url-build-parse's query handling delegates to url_search_params::parse_url_search_params (checked by R4 reachability)"]
     chk.undecided = ["round-trip equality for concrete maps beyond the table clause (e.g. keys containing '=' are split at every '='; '?' is decoded but never encoded)"]
     return chk.finish()
